@@ -667,6 +667,37 @@ impl<'de> de::VariantAccess<'de> for CompoundVariantAcc<'de> {
     }
 }
 
+/// a non-unit variant shown as the one-entry map {variant name: payload}
+struct VariantAsMap<'de> {
+    name: &'de str,
+    tree: &'de Tree,
+    parent: TreeDe<'de>,
+    done: bool,
+}
+impl<'de> MapAccess<'de> for VariantAsMap<'de> {
+    type Error = StoreError;
+    fn next_key_seed<K: DeserializeSeed<'de>>(&mut self, seed: K) -> Result<Option<K::Value>, StoreError> {
+        if self.done {
+            return Ok(None);
+        }
+        self.done = true;
+        seed.deserialize(de::value::BorrowedStrDeserializer::new(self.name)).map(Some)
+    }
+    fn next_value_seed<V: DeserializeSeed<'de>>(&mut self, seed: V) -> Result<V::Value, StoreError> {
+        match self.tree {
+            Tree::NewtypeVariant(_, _, t) => seed.deserialize(self.parent.child(t, 9)),
+            Tree::TupleVariant(_, _, items) => {
+                seed.deserialize(de::value::SeqAccessDeserializer::new(SeqAcc { items: items.iter(), parent: self.parent, i: 0 }))
+            }
+            Tree::StructVariant(_, _, fs) => {
+                let fields: Vec<&'de (String, Tree)> = fs.iter().collect();
+                seed.deserialize(de::value::MapAccessDeserializer::new(FieldAcc { fields, pos: 0, parent: self.parent }))
+            }
+            _ => Err(StoreError("not a variant".into())),
+        }
+    }
+}
+
 struct NewtypeVariantAcc<'de>(&'de str, TreeDe<'de>);
 impl<'de> de::EnumAccess<'de> for NewtypeVariantAcc<'de> {
     type Error = StoreError;
@@ -821,15 +852,12 @@ impl<'de> de::Deserializer<'de> for TreeDe<'de> {
                 }
             }
             Tree::Map(kv) => v.visit_map(MapAcc { items: kv.iter(), cur: None, parent: self }),
-            Tree::UnitVariant(_, var) => v.visit_enum(UnitVariantAcc(var)),
-            Tree::NewtypeVariant(_, var, t) => {
-                v.visit_enum(NewtypeVariantAcc(var, self.child(t, 9)))
-            }
-            Tree::TupleVariant(_, var, items) => {
-                v.visit_enum(CompoundVariantAcc { name: var, parent: self.child(self.t, 10), items: Some(items), fields: None })
-            }
-            Tree::StructVariant(_, var, fs) => {
-                v.visit_enum(CompoundVariantAcc { name: var, parent: self.child(self.t, 11), items: None, fields: Some(fs) })
+            // untyped access (serde's Content buffering for untagged / internally tagged
+            // enums and flatten cannot hold an EnumAccess): a self-describing format shows
+            // a unit variant as its name and any other variant as a one-entry map
+            Tree::UnitVariant(_, var) => v.visit_borrowed_str(var),
+            Tree::NewtypeVariant(_, var, _) | Tree::TupleVariant(_, var, _) | Tree::StructVariant(_, var, _) => {
+                v.visit_map(VariantAsMap { name: var, tree: self.t, parent: self, done: false })
             }
             Tree::U128(x) => v.visit_u128(*x),
             Tree::I128(x) => v.visit_i128(*x),
@@ -861,7 +889,19 @@ impl<'de> de::Deserializer<'de> for TreeDe<'de> {
         _variants: &'static [&'static str],
         v: V,
     ) -> Result<V::Value, StoreError> {
-        self.deserialize_any(v)
+        match self.t {
+            Tree::UnitVariant(_, var) => v.visit_enum(UnitVariantAcc(var)),
+            Tree::NewtypeVariant(_, var, t) => v.visit_enum(NewtypeVariantAcc(var, self.child(t, 9))),
+            Tree::TupleVariant(_, var, items) => {
+                v.visit_enum(CompoundVariantAcc { name: var, parent: self.child(self.t, 10), items: Some(items), fields: None })
+            }
+            Tree::StructVariant(_, var, fs) => {
+                v.visit_enum(CompoundVariantAcc { name: var, parent: self.child(self.t, 11), items: None, fields: Some(fs) })
+            }
+            // a variant written through the untyped path (or by hand): its name
+            Tree::Str(sv) => v.visit_enum(UnitVariantAcc(sv)),
+            _ => Err(StoreError("expected an enum".into())),
+        }
     }
 
     serde::forward_to_deserialize_any! {
